@@ -61,6 +61,31 @@ def _infeasible_threshold_scaled(ctx, p1, c1, inner, ret):
     ok = any(v in used and stores.get(v, 0) == 1 for v in scales)
     ctx.ob("C03-O2", "R1 STATUS-GUARD", p1, "phase-1 INFEASIBLE threshold is scaled by the infeasibility the run started with (read from the corner cell before the inner run, written once)", ok,
            f"test `{ast.unparse(tests[0])}` compares the corner cell with an absolute tolerance: the pivots leave a residue relative to the right-hand sides (about 1e-10 at 1e6), and a feasible LP with plain integer data such as solve_lp([1], [[-3]], [-786434]) is answered INFEASIBLE", node=ret)
+    # ... and the allowance that grows with the scale is a rounding allowance: the scale is multiplied by machine epsilon
+    # (times a small constant), never by the caller's tolerance.  `eps * infeasibility` accepted a real infeasibility of
+    # 1e-4 at scale 1000 under solve_milp's eps = 1e-6 and returned a point that violates a row by a whole unit (row 64)
+    good = True
+    why = ""
+    sc = {v for v in scales if v in used}
+    for t in tests:
+        for x in ast.walk(t):
+            if isinstance(x, ast.BinOp) and isinstance(x.op, (ast.Mult, ast.Div)) and sc & {y.id for y in ast.walk(x) if isinstance(y, ast.Name)}:
+                factors, stack_ = [], [x]
+                while stack_:
+                    e_ = stack_.pop()
+                    if isinstance(e_, ast.BinOp) and isinstance(e_.op, ast.Mult):
+                        stack_ += [e_.left, e_.right]
+                    else:
+                        factors.append(e_)
+                names_ = {y.id for f_ in factors for y in ast.walk(f_) if isinstance(y, ast.Name)}
+                txt_ = [ast.unparse(f_) for f_ in factors]
+                lits_ = [f_.value for f_ in factors if isinstance(f_, ast.Constant) and isinstance(f_.value, (int, float))]
+                tiny = "sys.float_info.epsilon" in txt_ or any(0 < l_ <= 1e-13 for l_ in lits_)
+                big = [l_ for l_ in lits_ if l_ > 4096]
+                if isinstance(x.op, ast.Div) or "eps" in names_ or not tiny or big:
+                    good, why = False, f"`{ast.unparse(x)[:70]}`"
+    ctx.ob("C03-O2", "R1 STATUS-GUARD", p1, "the part of the threshold that grows with the initial infeasibility is a rounding allowance: machine epsilon times a small constant times the scale (the tolerance eps is not multiplied by the scale)", ok and good,
+           f"{why}: an allowance of eps times the scale is a *relative feasibility tolerance* - with eps = 1e-6 (solve_milp) and right-hand sides around 1000 an LP that is infeasible by 1e-4 passes phase 1, and the MILP built on it returns a point that violates a row by a whole unit as OPTIMAL", node=ret)
 
 
 def run(ctx: Ctx):
@@ -604,7 +629,17 @@ def _v_ratio_threshold(tree):
 
 def _v_phase1_absolute_threshold(tree):
     g = M.find_func(tree, "_phase1")
-    M.replace_expr(g, lambda e: M.src_is(e, "-eps * max(1.0, infeasibility)"), M.expr("-eps"))
+    M.replace_expr(g, lambda e: M.src_is(e, "-max(eps, 64 * sys.float_info.epsilon * infeasibility)"), M.expr("-eps"))
+
+
+def _v_phase1_eps_times_scale(tree):
+    g = M.find_func(tree, "_phase1")
+    M.replace_expr(g, lambda e: M.src_is(e, "-max(eps, 64 * sys.float_info.epsilon * infeasibility)"), M.expr("-eps * max(1.0, infeasibility)"))
+
+
+def _t_phase1_factors_reordered(tree):
+    g = M.find_func(tree, "_phase1")
+    M.replace_expr(g, lambda e: M.src_is(e, "-max(eps, 64 * sys.float_info.epsilon * infeasibility)"), M.expr("-max(infeasibility * sys.float_info.epsilon * 128, eps)"))
 
 
 def _v_phase1_scale_read_after_run(tree):
@@ -619,9 +654,9 @@ def _v_phase1_scale_read_after_run(tree):
     g.body.insert(k[0] + 1, scale[0])
 
 
-def _t_phase1_relative_by_division(tree):
+def _v_phase1_relative_by_division(tree):
     g = M.find_func(tree, "_phase1")
-    M.replace_expr(g, lambda e: isinstance(e, ast.Compare) and M.src_is(e, "matrix[-1][-1] < -eps * max(1.0, infeasibility)"), M.expr("matrix[-1][-1] / max(1.0, infeasibility) < -eps"))
+    M.replace_expr(g, lambda e: isinstance(e, ast.Compare) and M.src_is(e, "matrix[-1][-1] < -max(eps, 64 * sys.float_info.epsilon * infeasibility)"), M.expr("matrix[-1][-1] / max(1.0, infeasibility) < -eps"))
 
 
 def _v_forward_when_optimal(tree):
@@ -748,7 +783,24 @@ def _v_ipm_refinement_with_fsum(tree):
     M.insert(g, "dx = ", "res = [rhs[i] - fsum(ADA[i][k] * dy[k] for k in range(m)) for i in range(m)]\ncorr = _solve_cholesky(ADA, res, m, eps)\ndy = [dy[i] + corr[i] for i in range(m)]")
 
 
+def _v_warn_helper_max_of_empty(tree):
+    g = M.find_func(tree, "warn_large_coefficients")
+    loop = [i for i, st in enumerate(g.body) if isinstance(st, ast.For)]
+    if not loop:
+        raise M.Skip("running maximum loop not found")
+    g.body[loop[0] - 1 : loop[0] + 1] = M.stmts("max_val = max(abs(val) for row in A for val in row)")
+
+
+def _v_cholesky_none_untested(tree):
+    g = M.find_func(tree, "_solve_cholesky")
+    M.insert(g, "if s <= 0", "if s != s:\n    return None")
+    h = M.find_func(tree, "_solve_newton")
+    M.replace_stmt(h, lambda s: isinstance(s, ast.If) and M.src_is(s.test, "dy is None"), [])
+
+
 VARIANTS = [
+    M.Variant("warn_large_coefficients takes max() of all entries: an LP without variables raises in the validator (seed C03-S)", "solvor/utils/validate.py", _v_warn_helper_max_of_empty, "C03-G7"),
+    M.Variant("_solve_cholesky answers None for a nan pivot and _solve_newton no longer tests for it (seed C03-T)", IP, _v_cholesky_none_untested, "C03-G18"),
     M.Variant("Newton step refined with math.fsum, which raises on inf - inf (seed C03-Q)", IP, _v_ipm_refinement_with_fsum, "C03-O6"),
     M.Variant("interior point solves without the all-zero columns and forwards the sub-problem's verdict (seed C03-N)", IP, _v_ipm_zero_columns_dropped, "C03-O3"),
     M.Variant("interior point calls a variable-free LP OPTIMAL without looking at b (original defect)", IP, _v_ipm_no_variables_ignores_b, "C03-O3"),
@@ -773,7 +825,9 @@ VARIANTS = [
     M.Variant("phase-1 pivot-out scans n_cols - 1 - m columns instead of all non-artificial ones (seed C03-E)", SX, _v_pivot_out_scan_short, "C03-O7"),
     M.Variant("phase-1 infeasibility judged against the absolute eps (original defect)", SX, _v_phase1_absolute_threshold, "C03-O2"),
     M.Variant("phase-1 scale read from the corner cell after the inner run, when it is (nearly) zero", SX, _v_phase1_scale_read_after_run, "C03-O2"),
-    M.Variant("twin: phase-1 residue divided by the scale instead of the tolerance multiplied", SX, _t_phase1_relative_by_division, None),
+    M.Variant("phase-1 residue divided by the scale and compared with eps (a relative feasibility tolerance again)", SX, _v_phase1_relative_by_division, "C03-O2"),
+    M.Variant("phase-1 threshold eps times the initial infeasibility (repair 56 as first written: ledger row 64)", SX, _v_phase1_eps_times_scale, "C03-O2"),
+    M.Variant("twin: phase-1 rounding allowance with its factors in another order and twice the constant", SX, _t_phase1_factors_reordered, None),
     M.Variant("solve_lp forwards the phase-1 outcome when it is OPTIMAL and runs phase 2 after a failed phase 1", SX, _v_forward_when_optimal, "C03-O2"),
     M.Variant("_phase1 answers MAX_ITER when the inner run did not", SX, _v_phase1_maxiter_test_negated, "C03-O2"),
     M.Variant("artificial column without its unit entry", SX, _v_phase1_no_unit_entry, "C03-O7"),
